@@ -20,6 +20,7 @@ from hypothesis import strategies as st
 from .. import cli_common, drive_api, e2e, gen, model
 from ..engine_common import engine_case, history_classes
 from ..runner import Outcome
+from . import c06
 
 ID = "C10"
 LEVEL = "exploration"
@@ -28,7 +29,10 @@ RULE = (
     "from/to placed on, one day before/after and between transaction dates, year edges, mid-year, before/after "
     "everything, from == to, empty windows; three runs per case (unfiltered, to only, from+to). One case in twelve comes "
     "from the non-monotone sub-generator (two entries < 26 h apart whose local dates are in the opposite order, to-date "
-    "between them). Non-trivial = the window hides a lot that a visible fraction consumes, or a transaction lies exactly "
+    "between them), one in twelve is a same-instant twin (two entries of one table at one instant, written with different UTC "
+    "offsets so that their own dates are D and D+1, bounds on and between the two), one in twenty-four has 33-90 small "
+    "purchases and one sale that takes most of them (dozens of fractions with one timestamp, window starting that day); the "
+    "to-date run's yearly lines are re-summed from the unfiltered fractions dated up to the to-date. Non-trivial = the window hides a lot that a visible fraction consumes, or a transaction lies exactly "
     "on a bound; distinct by case hash."
 )
 ASSUMPTIONS = [
@@ -158,9 +162,113 @@ def non_monotone_case(draw: Any) -> Dict[str, Any]:
 
 
 @st.composite
+def same_instant_twin_case(draw: Any) -> Dict[str, Any]:
+    """Two entries at the very same instant written with different UTC offsets, so that their own dates are D and D+1, the
+    D one first in the sheet (date-monotone); the window bounds fall on and between the two dates."""
+    year = draw(st.integers(2016, 2022))
+    hour = draw(st.integers(0, 23))
+    t = gen._year_start_us(year) + draw(st.integers(40, 300)) * gen.DAY_US + hour * 3600 * gen.US + draw(st.sampled_from([0, 0, 30, 59])) * 60 * gen.US
+    offsets = sorted(set(gen.OFFSETS_MIN))
+    pairs = [(a, b) for a in offsets for b in offsets if model.make_txs([_probe(t, a)])[0].day < model.make_txs([_probe(t, b)])[0].day]
+    off_a, off_b = draw(st.sampled_from(pairs))
+    rows: List[Dict[str, Any]] = [
+        {"table": "in", "row": 3, "ts": model.fmt_ts(t - draw(st.integers(30, 400)) * gen.DAY_US, 0), "ex": "Kraken", "ho": "Bob", "type": "buy", "price": "100", "crypto_in": "10", "uid": "u3"},
+        {"table": "in", "row": 4, "ts": model.fmt_ts(t - draw(st.integers(3, 29)) * gen.DAY_US, 0), "ex": "Kraken", "ho": "Bob", "type": "buy", "price": draw(st.sampled_from(["70", "130"])), "crypto_in": "5", "uid": "u4"},
+    ]
+    # both in the same table: the order of equal instants across tables is rp2's own (entries of different tables at one
+    # instant with different own dates are the F7 situation, see non_monotone_case)
+    kinds = [draw(st.sampled_from(["out", "out", "in", "intra"]))] * 2
+    stamps = [(t, off_a), (t, off_b)]
+    if draw(st.booleans()):
+        kinds.append("out")
+        stamps.append((t + draw(st.integers(2, 200)) * gen.DAY_US, draw(st.sampled_from(offsets))))
+    for row_no, (kind, (us, off)) in enumerate(zip(kinds, stamps), start=5):
+        ts = model.fmt_ts(us, off)
+        if kind == "in":
+            rows.append({"table": "in", "row": row_no, "ts": ts, "ex": "Kraken", "ho": "Bob", "type": draw(st.sampled_from(["buy", "interest"])), "price": "110", "crypto_in": "2", "uid": f"u{row_no}"})
+        elif kind == "out":
+            rows.append({"table": "out", "row": row_no, "ts": ts, "ex": "Kraken", "ho": "Bob", "type": draw(st.sampled_from(["sell", "gift", "fee"])), "price": "120", "out": "2", "fee": "0.01", "uid": f"u{row_no}"})
+            if rows[-1]["type"] == "fee":
+                rows[-1]["out"], rows[-1]["fee"] = "0", "0.5"
+        else:
+            rows.append({"table": "intra", "row": row_no, "ts": ts, "from_ex": "Kraken", "from_ho": "Bob", "to_ex": "Coinbase", "to_ho": "Bob", "price": "120", "sent": "1", "received": "0.99", "uid": f"u{row_no}"})
+    txs = model.make_txs(rows)
+    day_a, day_b = txs[2].day, txs[3].day
+    to_s = draw(st.sampled_from([day_a.isoformat(), day_a.isoformat(), day_b.isoformat(), None]))
+    from_s = draw(st.sampled_from([None, None, day_a.isoformat(), day_b.isoformat()]))
+    if from_s and to_s and from_s > to_s:
+        from_s = to_s
+    return {
+        "asset": "B1",
+        "exchanges": ["Kraken", "Coinbase"],
+        "holders": ["Bob"],
+        "rows": rows,
+        "schedule": {"1970": draw(st.sampled_from(model.METHODS))},
+        "country": "us",
+        "allow_negative": True,
+        "from": from_s,
+        "to": to_s,
+        "sub_generator": "same_instant_twin",
+    }
+
+
+@st.composite
+def many_lots_one_sale_case(draw: Any) -> Dict[str, Any]:
+    """33-90 small purchases (some on the same day), then one sale that takes most of them - dozens of fractions with one
+    timestamp - and a few later rows; the window starts on the day of the sale or of one of the purchases.  Sets of more than a
+    few dozen entries with runs of equal dates are what the step-by-step generator cannot reach."""
+    acc = ("Kraken", "Bob")
+    us = gen._year_start_us(draw(st.integers(2016, 2020))) + draw(st.integers(0, 200)) * gen.DAY_US + draw(st.integers(0, 86399)) * gen.US
+    n = draw(st.integers(33, 90))
+    gap = draw(st.sampled_from([5 * 3600 * gen.US, 11 * 3600 * gen.US, gen.DAY_US, 3 * gen.DAY_US]))
+    rows: List[Dict[str, Any]] = []
+    total = 0
+    for i in range(n):
+        units = (1 + i % 4) * (gen.UNIT // 100)
+        rows.append({"table": "in", "row": 3 + len(rows), "ts": model.fmt_ts(us, 0), "ex": acc[0], "ho": acc[1], "type": "interest" if i % 9 == 4 else "buy", "price": gen.units_to_str((100 + (i * 7) % 40) * gen.UNIT), "crypto_in": gen.units_to_str(units), "uid": f"b{i}"})
+        total += units
+        us += gap
+    us += draw(st.integers(0, 30)) * gen.DAY_US
+    sold = total * draw(st.sampled_from([5, 8, 9, 10])) // 10
+    rows.append({"table": "out", "row": 3 + len(rows), "ts": model.fmt_ts(us, 0), "ex": acc[0], "ho": acc[1], "type": draw(st.sampled_from(["sell", "gift"])), "price": "150", "out": gen.units_to_str(sold), "fee": "0", "uid": "big"})
+    sale_day = model.make_txs(rows[-1:])[0].day
+    for k in range(draw(st.integers(0, 3))):
+        us += draw(st.integers(0, 2)) * gen.DAY_US + 3600 * gen.US
+        rows.append({"table": "in", "row": 3 + len(rows), "ts": model.fmt_ts(us, 0), "ex": acc[0], "ho": acc[1], "type": "buy", "price": "160", "crypto_in": "0.5", "uid": f"a{k}"})
+        us += draw(st.integers(0, 2)) * gen.DAY_US + 3600 * gen.US
+        rows.append({"table": "out", "row": 3 + len(rows), "ts": model.fmt_ts(us, 0), "ex": acc[0], "ho": acc[1], "type": "sell", "price": "170", "out": "0.1", "fee": "0.001", "uid": f"s{k}"})
+    txs = model.make_txs(rows)
+    from_s = sale_day.isoformat() if draw(st.integers(0, 2)) else draw(st.sampled_from(sorted({t.day for t in txs}))).isoformat()
+    to_s = draw(st.sampled_from([None, None, sale_day.isoformat(), txs[-1].day.isoformat()]))
+    if to_s and from_s > to_s:
+        to_s = None
+    return {
+        "asset": "B1",
+        "exchanges": ["Kraken"],
+        "holders": ["Bob"],
+        "rows": rows,
+        "schedule": {"1970": draw(st.sampled_from(model.METHODS))},
+        "country": "us",
+        "allow_negative": True,
+        "from": from_s,
+        "to": to_s,
+        "sub_generator": "many_lots_one_sale",
+    }
+
+
+def _probe(us: int, off: int) -> Dict[str, Any]:
+    return {"table": "in", "row": 3, "ts": model.fmt_ts(us, off), "ex": "Kraken", "ho": "Bob", "type": "buy", "price": "1", "crypto_in": "1", "uid": "p"}
+
+
+@st.composite
 def strategy_case(draw: Any) -> Dict[str, Any]:
-    if draw(st.integers(0, 11)) == 0:
+    pick = draw(st.integers(0, 11))
+    if pick == 0:
         return draw(non_monotone_case())
+    if pick == 1:
+        return draw(same_instant_twin_case())
+    if pick == 2 and draw(st.booleans()):
+        return draw(many_lots_one_sale_case())
     case = draw(engine_case(CFG, allow_negative=True))
     txs = model.make_txs(case["rows"])
     kind = draw(st.integers(0, 5))
@@ -206,9 +314,13 @@ def evaluate(case: Dict[str, Any]) -> Outcome:
     by_row = {t.row: t for t in txs}
     out.classes |= history_classes(txs, case["schedule"])
     monotone = model.is_date_monotone(txs)
+    if case.get("sub_generator") == "same_instant_twin":
+        out.classes.add("same_instant_two_own_dates")
+    if case.get("sub_generator") == "many_lots_one_sale":
+        out.classes.add("dozens_of_fractions_with_one_timestamp")
     if not monotone:
         out.classes.add("non_monotone_local_dates")
-        if case.get("sub_generator") != "non_monotone":
+        if case.get("sub_generator") not in ("non_monotone", "same_instant_twin"):
             out.skipped = "non_monotone_dates(R3)"
             return out
     from_s, to_s = case.get("from"), case.get("to")
@@ -325,6 +437,11 @@ def evaluate(case: Dict[str, Any]) -> Outcome:
     expected_t = [f for f in run_u["fractions"] if model.in_window(by_row[f["ev"]].day, None, to_d)]
     if [(f["ev"], f["lot"]) + tuple(f[n] for n in FIELDS) for f in run_t["fractions"]] != [(f["ev"], f["lot"]) + tuple(f[n] for n in FIELDS) for f in expected_t]:
         out.fail("to_date_changes_figures", f"to-date {to_s}: fractions differ from the unfiltered fractions dated up to it")
+        return out
+    # ... and its yearly lines are the sums over exactly those fractions (independent of rp2's own cut at the to-date)
+    expected_lines, _counts = c06.resum(case["asset"], txs, expected_t)
+    c06.compare_yearly(out, expected_lines, run_t["yearly"], f"to-date {to_s}: yearly lines vs the unfiltered fractions dated up to it")
+    if out.violations:
         return out
     # 4. yearly lines = T's restricted to years >= from-year
     want_yearly = [y for y in run_t["yearly"] if from_d is None or y["year"] >= from_d.year]
